@@ -30,9 +30,9 @@ var (
 	pvcNames  = []string{"pvc-a1", "pvc-a2", "pvc-a3", "pvc-b1", "pvc-pv", "pvc-nosc"}
 )
 
-func nodeName(i int) string  { return fmt.Sprintf("n%d", i) }
-func podName(i int) string   { return fmt.Sprintf("p%d", i) }
-func dsName(i int) string    { return fmt.Sprintf("ds%d", i) }
+func nodeName(i int) string { return fmt.Sprintf("n%d", i) }
+func podName(i int) string  { return fmt.Sprintf("p%d", i) }
+func dsName(i int) string   { return fmt.Sprintf("ds%d", i) }
 
 type opKind int
 
@@ -59,6 +59,7 @@ type op struct {
 	D       time.Duration       // opStep
 	K       string              // provider id for mark/unmark/nominate
 	Glue    bool                // no informer delivery between this op and the next one
+	Deliver []dkey              // scripted histories: exactly these deliveries follow the operation
 	Desc    string
 }
 
@@ -93,10 +94,12 @@ type mPod struct {
 // history is a generated case: static objects, the operation list and which provider ids lost an API
 // object at some point (their marks / nominations are not determined by the API content alone).
 type history struct {
-	Static   []client.Object
-	Ops      []op
-	Unstable map[string]bool
-	Features map[string]bool
+	Static                      []client.Object
+	Ops                         []op
+	Unstable                    map[string]bool
+	Features                    map[string]bool
+	Scripted                    bool   // deliveries are given by op.Deliver instead of the PRNG
+	ForceKey                    string // scripted histories outside the random generator's domain: violation key by construction
 	NNodes, NClaims, NPods, NDS int
 }
 
@@ -120,7 +123,7 @@ func (g *hgen) cname(i int) string { return fmt.Sprintf("nc%d-%d", i, g.claimGen
 
 func q(s string) resource.Quantity { return resource.MustParse(s) }
 
-func (g *hgen) add(o op) { g.h.Ops = append(g.h.Ops, o) }
+func (g *hgen) add(o op)      { g.h.Ops = append(g.h.Ops, o) }
 func (g *hgen) feat(f string) { g.h.Features[f] = true }
 
 func (g *hgen) newK() string {
@@ -242,7 +245,7 @@ func (g *hgen) launch(i int) func(client.Object) {
 
 type nodeShape struct {
 	managed, withPID, withIT, registered, initialized, finalizer bool
-	extPID                                                      bool
+	extPID                                                       bool
 }
 
 func (g *hgen) buildNode(i int, s nodeShape, pid string) *corev1.Node {
